@@ -58,7 +58,8 @@ def facet_violation(P, X):
 def membership_case(draw):
     P = draw(cloud())
     n = draw(st.one_of(st.integers(1, 40), st.sampled_from([1, 2, 64, 100, 1000])))
-    engine = draw(st.sampled_from([None, None, "Halton", "Sobol", "LHC"]))
+    # engines by name, or as scipy QMCEngine objects of dimension d + 1 ("obj:<name>": a fresh, equally seeded object per call)
+    engine = draw(st.sampled_from([None, None, "Halton", "Sobol", "LHC", "obj:Halton", "obj:Sobol", "obj:LHC"]))
     return dict(P=P, n=n, engine=engine, seed=draw(st.integers(0, 2 ** 31 - 1)))
 
 
@@ -73,12 +74,20 @@ def body_membership(case):
     P = np.asarray(case["P"], dtype=float)
     n, engine, seed = case["n"], case["engine"], case["seed"]
     P0 = P.copy()
+
+    def eng():
+        if isinstance(engine, str) and engine.startswith("obj:"):
+            from scipy.stats import qmc
+            cls = {"Halton": qmc.Halton, "Sobol": qmc.Sobol, "LHC": qmc.LatinHypercube}[engine[4:]]
+            return cls(P.shape[1] + 1, seed=seed)
+        return engine
+
     with calling(f"sample_in_hull(engine={engine})"):
         with np.errstate(all="ignore"):
-            X = np.asarray(dreye.sample_in_hull(P, n, seed=seed, engine=engine))
-            X2 = np.asarray(dreye.sample_in_hull(P, n, seed=seed, engine=engine))
-            X3 = np.asarray(dreye.sample_in_hull(P, n, seed=np.random.default_rng(seed), engine=engine))
-            X4 = np.asarray(dreye.sample_in_hull(P, n, seed=np.random.default_rng(seed), engine=engine))
+            X = np.asarray(dreye.sample_in_hull(P, n, seed=seed, engine=eng()))
+            X2 = np.asarray(dreye.sample_in_hull(P, n, seed=seed, engine=eng()))
+            X3 = np.asarray(dreye.sample_in_hull(P, n, seed=np.random.default_rng(seed), engine=eng()))
+            X4 = np.asarray(dreye.sample_in_hull(P, n, seed=np.random.default_rng(seed), engine=eng()))
     check(np.array_equal(P, P0), "sample:input-modified", "point cloud modified")
     check(X.shape == (n, P.shape[1]), "sample:shape", f"requested {n} samples in {P.shape[1]}-D, got {X.shape} (engine {engine})")
     check(np.all(np.isfinite(X)), "sample:nonfinite", "non-finite samples")
